@@ -5,7 +5,7 @@ from __future__ import annotations
 from fractions import Fraction
 
 import common
-from common import cbool, clist, cnat, copt, cq, cz, fjson, fparse, frac_of_float
+from common import cbool, clist, cnat, copt, cq, fjson, fparse, frac_of_float
 
 PID = "C08"
 PROPS_FILE = "Props/C08.v"
@@ -26,10 +26,11 @@ ASSUMPTIONS = [
     "the training data has at least one rating (numpy's mean of nothing is NaN; Q division by zero is 0 in the model)",
     "damping values are non-negative (BiasConfig enforces NonNegativeFloat)",
     "ratings in a query history are finite; (user, item) pairs are rated at most once",
-    "cutoffs and date-time typed timestamps are exact at nanosecond resolution (generated at half-second steps)",
+    "cutoffs and timestamps are generated at half-second steps (whole seconds for integer and datetime64[s] columns), so every value is exact in its representation",
 ]
-RULE = ("structured generator: 1-8 users x 1-8 items (pre-declared, so some have no ratings), ratings in half steps, timestamps as "
-        "integer seconds / naive or UTC date-time typed / absent, damping scalar, per-entity dict (possibly missing a key) or (user, item) "
+RULE = ("structured generator: 1-8 users x 1-8 items (pre-declared, so some have no ratings), ratings in half steps, timestamp representation as a "
+        "generated dimension (integer seconds, float seconds, datetime64[s|ms|us|ns] tz-naive or tz-aware in UTC / America/Denver / Asia/Kolkata, "
+        "or no timestamps), datasets built with DatasetBuilder or from_interactions_df, damping scalar, per-entity dict (possibly missing a key) or (user, item) "
         "tuple with values in {0, 1/2, 5, ...}, every subset of {user, item}, 2-5 queries (known / unknown / no user, rated history with "
         "unknown items, empty history, history without ratings), all three popularity variants, 3 cutoffs before/inside/after the data; "
         "edge stream: single rating, constant ratings, one user or one item.  non-trivial = at least 3 ratings with 2 distinct values, "
@@ -39,6 +40,7 @@ TOL = "tol32"
 VARIANTS = ["count", "rank", "quantile"]
 CVAR = {"count": "VCount", "rank": "VRank", "quantile": "VQuantile"}
 DAMPS = ["0/1", "1/2", "5/1", "2/1", "1/4", "25/1"]
+TICKS = {"s": 1, "ms": 10**3, "us": 10**6, "ns": 10**9}
 
 
 # ---------------------------------------------------------------------------------------------
@@ -68,6 +70,16 @@ def gen_case(rng, edge=False):
         live = [(u, i) for u, i in pairs if u not in dead_u and i not in dead_i] or pairs
         k = rng.randint(max(1, len(live) // 3), min(len(live), 24))
         chosen = rng.sample(live, k)
+    build = rng.weighted([("builder", 3), ("df", 2)])
+    if build == "df":
+        # from_interactions_df only knows entities that occur: give every user and item a rating
+        chosen = list(chosen)
+        for u in range(nu):
+            if not any(c[0] == u for c in chosen):
+                chosen.append((u, rng.below(ni)))
+        for i in range(ni):
+            if not any(c[1] == i for c in chosen):
+                chosen.append((rng.below(nu), i))
     const = fjson(Fraction(rng.randint(1, 10), 2))
     base = rng.choice([0, 1_600_000_000])
     ratings = []
@@ -101,14 +113,19 @@ def gen_case(rng, edge=False):
         if rng.chance(1, 6) and items:
             items.append(items[0])
         queries.append({"user": user, "hist": hist, "items": rng.shuffle(items)})
-    trep = rng.weighted([("int", 4), ("date", 4), ("date_utc", 2), ("none", 1)])
+    trep = rng.weighted([("int", 3), ("float", 2), ("date", 10), ("none", 1)])
+    unit = rng.choice(["s", "ms", "us", "ns"])
+    tz = rng.weighted([(None, 3), ("UTC", 2), ("America/Denver", 1), ("Asia/Kolkata", 1)])
+    if trep in ("int",) or (trep == "date" and unit == "s"):
+        for r in ratings:
+            r[4] = 0                      # whole seconds only
     times = sorted({r[3] for r in ratings})
     cut = [times[0] - 50, rng.choice(times), times[-1] + 50, rng.choice(times) + rng.choice([-50, 50])]
     cutoffs = [fjson(Fraction(2 * c + rng.weighted([(0, 3), (1, 1)]), 2)) for c in rng.sample(cut, 3)]
     pop_items = rng.shuffle(rng.sample(list(range(ni)), rng.randint(0, ni)) + [f"x{k}" for k in rng.subset(range(3), 1, 2)])
     return {"idkind": rng.choice(["int", "str"]), "nu": nu, "ni": ni, "ratings": ratings, "damping": damping,
-            "entities": entities, "path": path, "queries": queries, "trep": trep, "cutoffs": cutoffs,
-            "pop_items": pop_items, "style": style}
+            "entities": entities, "path": path, "queries": queries, "trep": trep, "unit": unit, "tz": tz,
+            "build": build, "cutoffs": cutoffs, "pop_items": pop_items, "style": style}
 
 
 def gen_cases(rng, tier):
@@ -184,11 +201,21 @@ def build_dataset(case):
         "item_id": [iid(case, r[1]) for r in case["ratings"]],
         "rating": [float(fparse(r[2])) for r in case["ratings"]],
     })
+    half = [Fraction(2 * r[3] + r[4], 2) for r in case["ratings"]]
     if case["trep"] == "int":
         df["timestamp"] = np.array([r[3] for r in case["ratings"]], dtype=np.int64)
-    elif case["trep"] in ("date", "date_utc"):
-        ns = np.array([r[3] * 10**9 + r[4] * 5 * 10**8 for r in case["ratings"]], dtype=np.int64)
-        df["timestamp"] = pd.to_datetime(ns, unit="ns", utc=(case["trep"] == "date_utc"))
+    elif case["trep"] == "float":
+        df["timestamp"] = np.array([float(h) for h in half], dtype=np.float64)
+    elif case["trep"] == "date":
+        per = TICKS[case["unit"]]
+        ticks = np.array([int(h * per) for h in half], dtype=np.int64)
+        col = pd.Series(ticks.astype(f"datetime64[{case['unit']}]"))
+        if case["tz"]:
+            col = col.dt.tz_localize("UTC").dt.tz_convert(case["tz"])
+        df["timestamp"] = col
+    if case.get("build", "builder") == "df":
+        from lenskit.data import from_interactions_df
+        return from_interactions_df(df)
     dsb = DatasetBuilder()
     dsb.add_entities("item", [iid(case, i) for i in range(case["ni"])])
     dsb.add_entities("user", [uid(case, u) for u in range(case["nu"])])
@@ -202,6 +229,8 @@ def run_impl(case):
     inum = [int(ds.items.number(iid(case, i))) for i in range(case["ni"])]
     unum = [int(ds.users.number(uid(case, u))) for u in range(case["nu"])]
     obs = {}
+    tab = ds.interaction_table(format="pandas", original_ids=True)
+    obs["ts_dtype"] = str(tab["timestamp"].dtype) if "timestamp" in tab.columns else None
     ents = set(case["entities"])
     darg = _damping_arg(case["damping"])
     if case["path"] == "scorer":
@@ -282,7 +311,15 @@ def _damp_vals(dm):
 
 
 def _raw_time(case, r):
-    return r[3] if case["trep"] == "int" else r[3] * 10**9 + r[4] * 5 * 10**8
+    """the stored value: seconds for numeric columns, ticks of the column's resolution for date-time ones"""
+    h = Fraction(2 * r[3] + r[4], 2)
+    return h * TICKS[case["unit"]] if case["trep"] == "date" else h
+
+
+def rep_label(case):
+    if case["trep"] != "date":
+        return case["trep"]
+    return f"datetime64[{case['unit']}" + (f",{case['tz']}]" if case["tz"] else "]")
 
 
 def coq_term(case, obs):
@@ -313,8 +350,13 @@ def coq_term(case, obs):
         sc = clist(po["scores"], c_oq)
         parts.append(f"agree_pop {TOL} {CVAR[v]} (all_counts {cnat(case['ni'])} {log_items}) {sc}")
         parts.append(f"all2 (agree_opt {TOL}) (pop_call {sc} {clist(case['pop_items'], c_ref)}) {clist(po['call'], c_oq)}")
-    log = clist(case["ratings"], lambda r: f"({cnat(r[1])}, {cz(_raw_time(case, r))})")
-    rep = "TInt" if case["trep"] == "int" else "TDate"
+    log = clist(case["ratings"], lambda r: f"({cnat(r[1])}, {cq(_raw_time(case, r))})")
+    rep = f"(TDate {cq(TICKS[case['unit']])})" if case["trep"] == "date" else "TNum"
+    if case["trep"] == "date":
+        # the dataset must have kept the column date-time typed at the generated resolution
+        want = f"datetime64[{case['unit']}" + (f", {case['tz']}]" if case["tz"] else "]")
+        if obs.get("ts_dtype") != want:
+            return "false"
     for c, row in zip(case["cutoffs"], obs["tb"]):
         for v in VARIANTS:
             if isinstance(row[v], str):
@@ -452,11 +494,10 @@ def oracle(case, obs):
             tcounts = counts
         else:
             def instant(r):
-                return Fraction(r[3]) if case["trep"] == "int" else Fraction(2 * r[3] + r[4], 2)
+                return Fraction(2 * r[3] + r[4], 2)
             tcounts = [sum(1 for r in case["ratings"] if r[1] == i and instant(r) > cf) for i in range(case["ni"])]
-        rep = {"int": "int", "date": "date", "date_utc": "date", "none": "none"}[case["trep"]]
         for v in VARIANTS:
-            check_pop(v, tcounts, row[v], f"time-bounded[{rep}]", out)
+            check_pop(v, tcounts, row[v], f"time-bounded[{rep_label(case)}]", out)
     seen, res = set(), []
     for k, w in out:
         if k not in seen:
@@ -482,7 +523,8 @@ def counters(case, obs):
     if "0/1" in (case["damping"]["user"], case["damping"]["item"]):
         yield "damping-zero"
     yield "path=" + case["path"]
-    yield "timestamps=" + case["trep"]
+    yield "timestamps=" + rep_label(case)
+    yield "build=" + case.get("build", "builder")
     yield f"ratings={min(len(case['ratings']), 20) // 5 * 5}+"
     iu = {r[0] for r in case["ratings"]}
     ii = {r[1] for r in case["ratings"]}
